@@ -30,6 +30,7 @@ void vtrace(uint64_t v) { trace_hash = (trace_hash ^ v) * 1099511628211ULL; }
 void ir_throw(void) { finish("THROW", 0, 12); }
 void vstl_capacity_exceeded(void) { finish("ASSUME-FALSE", 1, 0); }
 void vstl_length_error(void) { finish("THROW", 1, 12); }
+void vstl_oob(void) { finish("OOB", 0, 13); }
 #ifndef VSTL_ACCESS_HOOK
 void vstl_access(const void* c) { (void)c; }
 #endif
